@@ -377,12 +377,15 @@ pub fn check(prop: &str, tier: &str) -> i32 {
             nontrivial_sigs.extend(r.stats.sigs.iter().cloned());
         }
         let mut hit_known = false;
+        let mut ids_this_run: BTreeSet<String> = BTreeSet::new();
         for v in &r.violations {
             match match_known(&known, v) {
                 Some(f) => {
                     hit_known = true;
-                    let e = known_seen.entry(f.id.clone()).or_insert((f.what.clone(), 0));
-                    e.1 += 1;
+                    if ids_this_run.insert(f.id.clone()) {
+                        let e = known_seen.entry(f.id.clone()).or_insert((f.what.clone(), 0));
+                        e.1 += 1;
+                    }
                 }
                 None => {
                     if unknown.is_none() {
